@@ -325,6 +325,14 @@ def stepW (w : World) (line : String) : World × String :=
         | .ret _ true, some l => " lists=" ++ " + ".intercalate l.1 ++ " -> " ++ " + ".intercalate l.2
         | _, _ => ""))
     | none => (w, "bad-op")
+  | ["split", h] =>
+    match parseHandle h with
+    | some id =>
+      let (w', outs) := w.splitC id
+      (w', "split " ++ " ".intercalate (outs.map (fun o => match o with
+        | .ret i true => s!"h{i}:new" | .ret i false => s!"h{i}:old" | e => showOut e)))
+    | none => (w, "bad-op")
+  | ["gc"] => (w, "ok")
   | ["drop", h] =>
     match parseHandle h with
     | some id => (w.drop id, "ok")
